@@ -243,7 +243,7 @@ def render(info):
     L.append("  (* FOAM_INDEX_START *) (%d) (* FOAM_INDEX_LIMIT *) (%d)" % (t["FOAM_INDEX_START"], t["FOAM_INDEX_LIMIT"]))
     L.append("  (* FOAM_START, FOAM_BVAL_START, FOAM_PROTO_START *) (%d) (%d) (%d)" % (info["foam_start"], info["bval_start"], info["proto_start"]))
     L.append("  (* bytes of a builtin tag *) (%d) (* MAX_BYTE *) (%d) (* sizeof(BIntS)/2 *) (%d)" % (info["bval_bytes"], env["MAX_BYTE"], info["u16_per_digit"]))
-    L.append("  (* SInt Unimp Decl GDecl BInt *) %s %s %s %s %s" % (T("SInt"), T("Unimp"), T("Decl"), T("GDecl"), T("BInt")))
+    L.append("  (* Char SInt Unimp Decl GDecl BInt *) %s %s %s %s %s %s" % (T("Char"), T("SInt"), T("Unimp"), T("Decl"), T("GDecl"), T("BInt")))
     L.append("  (* Rec DEnv DFluid *) %s %s %s" % (T("Rec"), T("DEnv"), T("DFluid")))
     L.append("  (* Lex RElt RRElt EElt IRElt TRElt *) %s %s %s %s %s %s" % (T("Lex"), T("RElt"), T("RRElt"), T("EElt"), T("IRElt"), T("TRElt")))
     L.append("  (* Prog BCall *) %s %s" % (T("Prog"), T("BCall")))
